@@ -224,7 +224,9 @@ def judge(world):
                 c0, c, v, val['by'], start, end, vers)))
         for (pc0, pc1) in purge_returns:
             pub = [pc for pc, po in publishes if po == val['by']]
-            if pub and pub[0] < pc0 and c0 > pc1:
+            # only entries that existed before the version change began (the first new-version process starting to open
+            # the cache) are promised to be discarded; what an old-version scanner publishes meanwhile is not
+            if pub and pub[0] < min(pc0, change_begins) and c0 > pc1:
                 out.append(('purge-survivor', 'entry published at %d survived a version purge [%d,%d] and was loaded at [%d,%d]' % (pub[0], pc0, pc1, c0, c)))
     return out
 
